@@ -19,6 +19,7 @@
   `Conn.permitsFree`; `pendingHeld` (the PendingSubscriptionSink is alive) is `phase = pending`.
   Ghost fields: `unsubscribed`, `orphaned`, `produced`, `closeSent`.
 -/
+import JrpcVerif.Model.Wire
 namespace Jrpc.SubServer
 
 inductive Phase where
@@ -94,6 +95,7 @@ inductive Op where
   | handlerReturn (k : Nat) (r : Ret)
   | taskStep (k : Nat)
   | unsubscribe (c m x rid : Nat)
+  | unsubscribeBad (c rid : Nat)    -- the parameter is not a subscription id
   | connClose (c : Nat)
   | stop
   | connFinish (c : Nat)
@@ -107,6 +109,23 @@ inductive Out where
   | bool (b : Bool)
   | frame (f : Frame)
   deriving DecidableEq, Repr
+
+/-! ### typed subscription ids
+
+`SubscriptionId` is `Num(u64) | Str(String)` and the subscriber table is keyed by the TYPED id
+(`SubscriptionKey` derives `Hash`/`Eq`): `Num 5` and `Str "5"` are different keys.  The machine
+below works with an opaque key (`Sub.subId : Nat`); typed ids enter through the injective
+embedding `idKey` (`idKey_injective` in Proofs/SubServerLemmas.lean), so every statement about
+"the subscription with exactly this id" is a statement about the typed id. -/
+
+/-- an injective code of a text (list of code points): 2^c · (2·code(rest) + 1) -/
+def codeText : Text → Nat
+  | [] => 0
+  | c :: r => 2 ^ c * (2 * codeText r + 1)
+
+def idKey : SubId → Nat
+  | .num n => 2 * n
+  | .str s => 2 * codeText s + 1
 
 def tooManyCode : Int := -32006
 def internalCode : Int := -32603
@@ -277,6 +296,18 @@ def doUnsubscribe (st : State) (c m x rid : Nat) : State × Out :=
           -- `s.conn = c` by the key, so `put` writes the entry and connection `c`
           (put st k { s with inTable := false, unsubscribed := true } (cn.push (.unsub rid true)), .bool true)
 
+/-- An unsubscribe call whose parameter is not a subscription id — not exactly one element, or an
+object / array / bool / null / float / negative number / number ≥ 2^64
+(`params.one::<SubscriptionId>()` fails, rpc_module.rs:1000-1014): answered `false` without any
+lookup. -/
+def doUnsubscribeBad (st : State) (c rid : Nat) : State × Out :=
+  match st.conns[c]? with
+  | none => (st, .bad)
+  | some cn =>
+    if !cn.isOpen || cn.stopping then (st, .ignored)
+    else if !cn.hasRoom then (st, .blocked)
+    else (putConn st c (cn.push (.unsub rid false)), .bool false)
+
 def doConnClose (st : State) (c : Nat) : State × Out :=
   match st.conns[c]? with
   | none => (st, .bad)
@@ -317,6 +348,7 @@ def step (st : State) : Op → State × Out
   | .handlerReturn k r => doReturn st k r
   | .taskStep k => doTask st k
   | .unsubscribe c m x rid => doUnsubscribe st c m x rid
+  | .unsubscribeBad c rid => doUnsubscribeBad st c rid
   | .connClose c => doConnClose st c
   | .stop => doStop st
   | .connFinish c => doConnFinish st c
